@@ -16,7 +16,8 @@
 EXTENDS Diagrams, Counting, Bignum, TLC
 
 CONSTANT K,                      \* number of pool slots (0 = True, 1 = False are fixed)
-         Enforce                 \* the property ids whose conjuncts are enforced in this run
+         Enforce,                \* the property ids whose conjuncts are enforced in this run
+         TwinProp                \* the property a lock-step twin belongs to: "C16" (lossy-cache twin) or "C18" (C ABI twin)
 
 (* a conjunct belongs to exactly one property; a check for property P alarms only on P's conjuncts *)
 Req(p, cond) == IF p \in Enforce THEN cond ELSE TRUE
@@ -107,7 +108,7 @@ Produce(e) ==
             ELSE canon' = canon @@ (d :> e.root)
   \* C16: the twin builder (tiny lossy apply cache, same program) returned the same canonical diagram
   /\ IF "tev" \in DOMAIN e
-       THEN Req("C16", /\ e.tev = e.ev /\ e.ta = e.a /\ "troot" \in DOMAIN e
+       THEN Req(TwinProp, /\ e.tev = e.ev /\ e.ta = e.a /\ "troot" \in DOMAIN e
                        /\ e.troot = e.root /\ e.tnodes = e.nodes)
        ELSE TRUE
   \* C10: no scratch left behind
@@ -188,11 +189,12 @@ QueryOK(e) ==
          /\ ("tail0" \in DOMAIN e) => e.tail0)
     [] e.ev = "semhash" -> Req("C11", HashOK(e))
     [] e.ev \in {"mmap", "meu", "bb"} -> Req("C12", OptOK(e))
+    [] e.ev \in {"topvar", "mc", "wmcr", "wmcc", "wmcp", "json", "cnt"} -> TRUE     \* C ABI queries: judged by the twin only
 
 Query(e) ==
   /\ QueryOK(e)
   /\ IF "tev" \in DOMAIN e
-       THEN Req("C16", /\ e.tev = e.ev /\ e.ta = e.a
+       THEN Req(TwinProp, /\ e.tev = e.ev /\ e.ta = e.a
                        /\ (IF "val" \in DOMAIN e THEN "tval" \in DOMAIN e /\ e.tval = e.val ELSE TRUE)
                        /\ (IF "root" \in DOMAIN e THEN "troot" \in DOMAIN e /\ e.troot = e.root /\ e.tnodes = e.nodes ELSE TRUE))
        ELSE TRUE
